@@ -29,33 +29,33 @@ ORACLE_TEXT = {
 
 
 def plan(pid, tier):
-  """list of shard argument tuples for B.run_shard"""
+  """list of shard argument tuples for B.run_shard:
+  (fixture, mode, first_kind, nacts, pools of first action, pools of later actions, want, prefix_n, max_s, max_runs)"""
   want = {pid}
-  if pid == "C08":
-    want = {"C08", "C04x"}   # C08 is also evaluated after rollbacks (run_bundle_oracles does so)
   shards = []
+  kinds = F.ALL_KINDS
+  if pid == "C31":
+    kinds = F.RECORD_KINDS + ["AddColumn", "ModifyType", "Summary"]
   if tier == "quick":
-    fixtures1 = ["basic", "types", "twoway", "summary", "trigger"]
-    fixtures2 = ["basic", "twoway", "summary"]
-    kinds = F.ALL_KINDS
-    if pid == "C31":
-      kinds = F.RECORD_KINDS + ["AddColumn", "ModifyType", "Summary"]
-    for fx in fixtures1:
+    for fx, size in (("basic", "med"), ("trigger", "med"), ("types", "small"), ("summary", "small"),
+                     ("twoway", "small"), ("lookup", "small")):
       for k in kinds:
-        shards.append((fx, "one", k, 1, "small", want, 0, None, None))
-    for fx in fixtures2:
-      for k in kinds:
-        shards.append((fx, "seq", k, 2, "small", want, 0, 12.0, None))
-        shards.append((fx, "one", k, 2, "small", want, 0, 8.0, None))
+        shards.append((fx, "one", k, 1, size, size, want, 0, None, None))
+    pairs = []
+    for k in kinds:
+      for k2 in kinds:
+        pairs.append(("basic", "one", k + "+" + k2, 2, "micro", "micro", want, 0, 30.0, None))
+    shards = pairs + shards
   else:
     fixtures = ["basic", "types", "twoway", "summary", "trigger", "views", "lookup", "cycles"]
     for fx in fixtures:
       for k in F.ALL_KINDS:
-        shards.append((fx, "one", k, 1, "full", want, 0, None, None))
-        shards.append((fx, "one", k, 1, "full", want, 4, None, None))
-        shards.append((fx, "seq", k, 2, "small", want, 0, 60.0, None))
-        shards.append((fx, "one", k, 2, "small", want, 0, 40.0, None))
-        shards.append((fx, "seq", k, 3, "small", want, 2, 30.0, None))
+        shards.append((fx, "one", k, 1, "full", "full", want, 0, None, None))
+        shards.append((fx, "one", k, 1, "med", "med", want, 4, None, None))
+        shards.append((fx, "one", k, 2, "micro", "micro", want, 0, 240.0, None))
+        shards.append((fx, "seq", k, 2, "micro", "micro", want, 0, 240.0, None))
+        shards.append((fx, "one", k, 2, "small", "tiny", want, 0, 60.0, None))
+        shards.append((fx, "seq", k, 3, "micro", "micro", want, 2, 60.0, None))
   return shards
 
 
@@ -93,7 +93,7 @@ def replay_cmd(pid, path):
 def run(pid, tier, seed):
   ev = common.Evidence(pid, "exploration", tier, seed)
   shards = plan(pid, tier)
-  args = [(fx, mode, k, n, size2, w, pn, seed, ms, mr) for (fx, mode, k, n, size2, w, pn, ms, mr) in shards]
+  args = [(fx, mode, k, n, size1, size2, w, pn, seed, ms, mr) for (fx, mode, k, n, size1, size2, w, pn, ms, mr) in shards]
   results = common.pmap(B.run_shard, args)
   runs = nontriv = 0
   solver_s = 0.0
@@ -148,6 +148,8 @@ def run(pid, tier, seed):
             "inside an executed cube; non-trivial = the bundle was accepted by the engine (not rejected by "
             "validation); distinct by construction (each run lies in a different cube)",
     "exhaustive": not not_exhausted and not harness,
+    "exhaustive_single_action_shards": all(r[1]["exhaustive"] for a, r in zip(args, results)
+                                           if r[0] == "ok" and a[3] == 1),
     "mode": "E2-enum",
     "shards": len(args), "shards_exhausted": exhausted, "shards_not_exhausted": not_exhausted[:20],
     "solver": "z3 %s" % __import__("z3").get_version_string(), "solver_queries": queries,
@@ -155,7 +157,9 @@ def run(pid, tier, seed):
     "oracle": ORACLE_TEXT[pid],
     "functions_executed": common.code_ref(*FILES[pid]),
     "bounds": {"tier": tier, "fixtures": sorted({a[0] for a in args}), "actions_per_history": sorted({a[3] for a in args}),
-               "pools_full": F.Pools.FULL, "pools_small": F.Pools.SMALL, "kinds": sorted({a[2] for a in args}),
+               "shard_shapes": sorted({"%s/%s/%d actions/pools %s+%s/prefix %d" % (a[0], a[1], a[3], a[4], a[5], a[7]) for a in args}),
+               "pools": {k: getattr(F.Pools, k.upper()) for k in sorted({a[4] for a in args} | {a[5] for a in args})},
+               "kinds": sorted({a[2] for a in args}),
                "outside": "documents larger than the fixtures (<= 3 user tables, <= 4 rows), bundles longer than "
                           "the stated number of actions, payloads/names/types/formulas outside the pools, schema "
                           "changes of the manualSort column itself"},
